@@ -3,6 +3,7 @@ package main
 
 import (
 	"fmt"
+	"github.com/tmpim/casket/caskethttp/httpserver"
 	"io"
 	"net"
 	"net/http"
@@ -485,5 +486,32 @@ func main() {
 		l.Close()
 		rep.Class("two-limits-directives/both-applied")
 	}
+	// case-sensitive path mode (CASE_SENSITIVE_PATH=1): scopes that differ only in letter case are different scopes
+	httpserver.CaseSensitivePath = true
+	{
+		cf := "a.test:8080 {\n\tlimits {\n\t\tbody /API 16\n\t\tbody /api 4\n\t}\n\tverif_probe\n}\n"
+		l, err := kit.Load(cf, "/nonexistent/Casketfile")
+		if err != nil {
+			rep.Violation("C17/body/case-sensitive-scopes-refused", "two body scopes that differ in letter case were refused in case-sensitive mode: "+err.Error(), limCase{cf, "", "", err.Error()})
+		} else {
+			for _, tc := range []struct {
+				path string
+				lim  int
+			}{{"/api/x", 4}, {"/API/x", 16}} {
+				b := body(20)
+				raw := fmt.Sprintf("POST %s HTTP/1.1\r\nHost: a.test:8080\r\nX-Probe: readbody:3\r\nContent-Length: %d\r\n\r\n%s", tc.path, len(b), b)
+				req, _ := kit.Req(raw)
+				rec, pv, _ := kit.ServeReq(l.Server(""), req)
+				rep.Eval(1)
+				want := fmt.Sprintf("READ n=%d err=http: request body too large", tc.lim)
+				if pv != nil || !strings.Contains(rec.Body.String(), want) {
+					rep.Violation("C17/body/over-limit-not-cut-at-limit/case-sensitive-paths", fmt.Sprintf("case-sensitive mode: a 20-byte body for %s was not cut at %d", tc.path, tc.lim), limCase{cf, raw, want + " ...", rec.Body.String()})
+				}
+			}
+			l.Close()
+		}
+		rep.Class("case-sensitive-paths")
+	}
+	httpserver.CaseSensitivePath = false
 	rep.Finish()
 }
